@@ -53,7 +53,7 @@ ASSUMPTIONS = [
 MANIFEST_TEXT = (
     "proof (_partial). Full, unbounded theorems: orbits soundness (every yielded list is a partition, n >= 1); conversions "
     "(orbit is a partition of the photon number, permutation invariance, orbit->sample->orbit round trip for every shuffle, "
-    "sample_to_event spec); exact multinomial identity for the integer model of orbit_cardinality; postselect / "
+    "sample_to_event spec, event_to_sample lands in the requested event for every draw); exact multinomial identity for the integer model of orbit_cardinality; postselect / "
     "modes_from_counts / to_subgraphs specs; is_clique <-> all pairs adjacent on simple graphs (and on all graphs once "
     "self-loops are ignored); c_0 / c_1 characterisations; selection rule of grow/swap for every draw; grow = maximal clique "
     "containing the input; swap = clique of equal size; shrink = clique inside the input; removal/addition rules of the "
@@ -62,7 +62,7 @@ MANIFEST_TEXT = (
     "Bounded (bound in the statement): orbits complete and duplicate-free for n <= 40; cardinalities = brute-force counts "
     "for <= 6 photons, <= 5 modes. Refuted on the faithful model (known findings): orbits(0), is_clique with self-loops, "
     "weight-mode node choice of shrink/resize, event_cardinality with fewer modes than photons. Not theorems: unbounded "
-    "completeness of orbits, unbounded count = multinomial, event_to_sample, whole-history statement for search; the "
+    "completeness of orbits, unbounded count = multinomial, event_to_sample, whole-history statement for search, the probabilities inside event_to_sample; the "
     "floating-point arithmetic of orbit_cardinality is not modelled (compared against the exact model instead).")
 
 # ======================================================================================
@@ -1078,6 +1078,15 @@ def correspondence(ctx):
         rng.shuffle(perm)
         B.add("o2s", "orbit_to_sample %s %d %s" % (L(o), m, L(perm)), call(SI.orbit_to_sample, list(o), m, perm=perm), {"orbit": o, "modes": m, "perm": perm})
     for _ in range(20 * scale):
+        # modes >= photons: the region where the source and its proposed repair coincide
+        k, c = rng.randint(0, 8), rng.randint(0, 4)
+        m = rng.randint(max(k, 1), max(k, 1) + 8)
+        perm = list(range(m))
+        rng.shuffle(perm)
+        dr = gen_draws(rng, 2)
+        B.add("e2s", "event_to_sample %d %d %d %d %s" % (k, c, m, dr[0], L(perm)), call(SI.event_to_sample, k, c, m, draws=dr, perm=perm),
+              {"photons": k, "maxc": c, "modes": m, "draws": dr, "perm": perm})
+    for _ in range(20 * scale):
         g = gen_graph(rng, max_n=8, labels="small" if rng.random() < 0.5 else "any")
         n = len(g["nodes"])
         samples = gen_samples(rng, n, rng.randint(1, 5))
@@ -1204,7 +1213,7 @@ def correspondence(ctx):
                         agree = False
                 else:
                     agree = False
-            elif kind == "o2s":
+            elif kind in ("o2s", "e2s"):
                 mo = ("Ok", list(mv[1])) if isinstance(mv, tuple) else ("ValueError",)
                 agree = canon_res(impl) == mo
             elif kind == "sample":
